@@ -13,6 +13,8 @@ UIDS = ["uid-1@example.com", "uid-2@example.com", "UID-1@example.com", "uid 3 wi
 
 COND_CLASSES = [["cur"], ["stale"], ["other"], ["star"], ["unq"], ["garbage"],
                 ["other", "cur"], ["stale", "garbage"], ["garbage", "cur", "other"]]
+# If-Match only (strong comparison): the current etag in weak form lists nothing the resource has
+IM_CLASSES = COND_CLASSES + [["weak"], ["stale", "weak"], ["weak", "other"]]
 
 PROP_VALUES = ["Plain", "Work calendar", "50% done", "a=b:c", "[x] # y", "Zoë ☃",
                "quote\"s'", "x"]
@@ -176,11 +178,11 @@ def run_random_session(seed, prof, frontend="wsgi", prefix="/", backend="tree", 
                 if rng.random() < prof["cond"]:
                     r2 = rng.random()
                     if r2 < 0.5:
-                        im = rng.choice(COND_CLASSES)
+                        im = rng.choice(IM_CLASSES)
                     elif r2 < 0.8:
                         inm = rng.choice(COND_CLASSES)
                     else:     # both headers on one request
-                        im = rng.choice(COND_CLASSES)
+                        im = rng.choice(IM_CLASSES)
                         inm = rng.choice(COND_CLASSES)
                 fault = rng.randint(1, 14) if rng.random() < prof["fault"] else 0
                 ct = None
@@ -197,7 +199,7 @@ def run_random_session(seed, prof, frontend="wsgi", prefix="/", backend="tree", 
             elif op == "delete":
                 names = sorted(live) if live and rng.random() < 0.75 else ICS_NAMES + VCF_NAMES
                 n = rng.choice(names)
-                im = rng.choice(COND_CLASSES) if rng.random() < prof["cond"] else None
+                im = rng.choice(IM_CLASSES) if rng.random() < prof["cond"] else None
                 fault = rng.randint(1, 10) if rng.random() < prof["fault"] else 0
                 s.delete(c, n, im=im, fault=fault)
             elif op == "mk":
@@ -231,7 +233,7 @@ def run_random_session(seed, prof, frontend="wsgi", prefix="/", backend="tree", 
                 ps = [rng.choice(cand) for _ in range(k)] if rng.random() < 0.3 else rng.sample(cand, min(k, len(cand)))
                 s.propupdate(c, [(p, value_for(p)) for p in ps])
             elif op == "restart":
-                s.restart()
+                s.restart(defaults=rng.random() < 0.5)
             elif op == "lock":
                 if c in s.locked:
                     s.lock(c, False)
